@@ -141,6 +141,13 @@ def facts_of(st: Step) -> dict:
         while k > tgt.start_byte and data[k - 1:k] in (b" ", b"\t", b"\n"):
             k -= 1
         f["blank_before_close"] = data[k:close].count(b"\n") >= 2
+        lets = sh.layers()
+        f["blank_before_body"] = False
+        if lets:
+            inn = [c for c in lets[0].children if c.type == "in"]
+            if inn:
+                gap = data[inn[-1].end_byte:tgt.start_byte]
+                f["blank_before_body"] = gap.strip() == b"" and gap.count(b"\n") >= 2
     else:
         f["wrappers"] = None
         f["outer"] = None
@@ -224,6 +231,9 @@ def oracle_c06(doc: str, steps: list[Step], *, check_start: bool = True) -> list
             out.append(v)
     for st in steps:
         if st.outcome != "ok":
+            continue
+        if not st.fresh and not _is_fixed_point(st.before):
+            # the live document was already unstable before this step (reported at the step that made it so)
             continue
         v = fixed_point_violation(st.out, "text emitted by %s" % st.op["op"], st.i, facts_of(st))
         if v:
